@@ -583,7 +583,23 @@ func ruleN4(c *Ctx) {
 					c.viol(key, pos, "recursive comparison of contained values does not decrement depth: cyclic values are compared forever (stack overflow)")
 				}
 			default:
-				// helper with depth param must receive depth (unchanged is fine: same level)
+				// a helper that carries the depth works at the same level: it must receive the depth
+				// unchanged (it decrements where it descends into contained values, checked above);
+				// handing it depth-1 charges two units per level and halves the nesting that can be compared
+				if !seen[cal] {
+					return
+				}
+				for j, p := range cal.Params {
+					if p.Name() != "depth" || j >= len(call.Call.Args) {
+						continue
+					}
+					a := call.Call.Args[j]
+					if isDepth(a) {
+						c.ok(key, pos, "the helper receives the depth unchanged")
+					} else {
+						c.viol(key, pos, "a depth-carrying helper is handed a modified depth: the helper decrements again when it descends, so each nesting level costs more than one unit and values well within the limit fail with 'maximum recursion depth' (or, if increased, the guard is weakened)")
+					}
+				}
 			}
 		})
 	}
@@ -742,7 +758,9 @@ func n7Recover(c *Ctx, fn *ssa.Function, label, privType string) {
 		switch x := in.(type) {
 		case *ssa.TypeAssert:
 			if x.X == recv {
-				if _, n := namedOf(x.AssertedType); n == privType && x.CommaOk {
+				// the private failure type: an unexported named type declared in the function's own
+				// package (whatever it is called)
+				if pp, n := namedOf(x.AssertedType); x.CommaOk && n != "" && !token.IsExported(n) && pp == fnPkgPath(fn) {
 					asserted = true
 				}
 			}
